@@ -66,5 +66,18 @@ def register(claim, na):
           "priority maps to its own channel on both ends, multi-control operations are enqueued back to back at one priority and return the last "
           "ticket, single consumer, no re-queueing. FIFO-ness of tokio mpsc is trusted.",
           "trusts tokio unbounded mpsc FIFO order and select! semantics", "DESIGN.md section 5 C10")
-    for p in ["C01", "C02", "C03", "C05", "C08", "C11", "C12", "C13", "C14", "C15", "C18"]:
+    TC = "THIR path enumeration of one throttle_collect iteration (52 syntactic / 24 feasible paths, predicate-consistency filter, let-substitution, boolean implication on branch conditions)"
+    claim("C01", "other", TC + "; MIR who-may-call / def-use for the single reader, single handler call and the batch hand-over; THIR tables for source priorities",
+          "Decides on every feasible path of the collect loop: an event is pushed exactly once iff it is urgent, empty or passed by the filter, never when "
+          "rejected or errored (error reported once, loop continues); every returned batch is the accumulated set and non-empty; the queue has one reader "
+          "and the handler one call site per batch with the collected batch as argument; sources use the documented priorities and report failed sends. "
+          "Channel semantics and real watcher behaviour are not decided.",
+          "trusts async_priority_channel delivery semantics, notify back-ends, tokio timeout; the filter is an opaque verdict",
+          "DESIGN.md section 5 C01")
+    claim("C02", "other", TC + "; guard-structure rules on the release/hold decisions; derived-Ord table for Priority",
+          "Decides the guard structure: the window start moves only when the set is empty and always when a possibly-first event is accepted; a batch is "
+          "released only through the urgent edge, the false edge of last.elapsed() < throttle.get(), or the expired remaining window with a non-empty set; "
+          "all comparisons read the throttle freshly; the recv timeout is the freshly computed remaining window. Wall-clock accuracy is not decided.",
+          "trusts tokio's timer and Instant; 'bounded delay' is structural (shrinking timeout), not measured", "DESIGN.md section 5 C02")
+    for p in ["C03", "C05", "C08", "C11", "C12", "C13", "C14", "C15", "C18"]:
         na(p, PENDING)
